@@ -24,6 +24,16 @@ LEVEL_NOTE = "Not decided: string ordering of {pycalver} chains (a property of l
 
 SCOPE = {"pycalver", "semver", "year", "month", "dom", "doy", "quarter", "build_no", "release", "MAJOR", "MINOR", "PATCH",
          "pep440_pycalver", "pep440_version", "calver", "build", "bid", "BID", "tag", "pep440_tag", "release_tag"}
+# The statement names the parts above "style parts"; their siblings in the same tables are decided with them, except
+# the forms below, which the statement does not name and which misbehave on the pinned tree only for values outside
+# its quantifier (one/two-digit renderings of the *_short parts at the end of a pattern, build ids below 10^(n-1) for
+# the B.. paddings).  They stay observations, one line each in the evidence.
+OUT_OF_SCOPE = {
+    "dom_short": "alternation order `[1-9]|[1-2][0-9]|..` reads '10' as '1' when nothing follows the part",
+    "doy_short": "renders the unpadded day of year, the regex wants three digits",
+    "BB": "regex wants a non-zero first digit, renderer zero-pads ids below 10", "BBB": "same, ids below 100", "BBBB": "same, ids below 1000",
+    "BBBBB": "same, ids below 10^4", "BBBBBB": "same, ids below 10^5", "BBBBBBB": "same, ids below 10^6",
+}
 LEGACY_TAGS = ["alpha", "beta", "dev", "rc", "post", "final"]
 
 
@@ -108,8 +118,16 @@ def kwargs_model(ctx, fv) -> T.Dict[str, T.Callable[[], rl.R]]:
     for k in ("release", "pep440_tag", "release_tag"):
         ctx.require(k in assigns, f"format_version (v1) no longer assigns kwargs['{k}']")
         model[k] = ("strs", strs_of(assigns[k]))
-    ctx.require("yy" in assigns and unparse(assigns["yy"][0]) == "str(year)[-2:]", "kwargs['yy'] shape changed")
-    model["yy"] = ("strs", sorted({str(y)[-2:] for y in range(2000, 2100)}))
+    ctx.require("yy" in assigns and len(assigns["yy"]) == 1, "kwargs['yy'] is not assigned exactly once")
+    yy = unparse(shapes.inline(fv, assigns["yy"][0], ctx.prog)).replace(f"{fv.params[0]}.year", "year")
+    if yy in ("str(year)[-2:]", "str(year % 100).zfill(2)", "'%02d' % (year % 100)", "'{:02}'.format(year % 100)", "f'{year % 100:02}'", "f'{year % 100:02d}'"):
+        model["yy"] = ("strs", sorted({str(y)[-2:] for y in range(2000, 2100)}))
+    elif yy in ("year % 100", "year - 2000", "int(str(year)[-2:])"):
+        model["yy"] = ("ints", ("ints", 0, 99))         # a number: rendered by the part's format spec, without a leading zero unless that pads
+    elif yy in ("str(year % 100)", "str(year - 2000)"):
+        model["yy"] = ("strs", sorted({str(y % 100) for y in range(2000, 2100)}))
+    else:
+        raise AnalysisError(f"C20: kwargs['yy'] expression not enumerated: `{yy}`")
     ctx.require("yyyy" in assigns and unparse(assigns["yyyy"][0]) == "year", "kwargs['yyyy'] shape changed")
     model["yyyy"] = ("ints", ("ints", 2000, 2099))
     ctx.require("BID" in assigns and unparse(assigns["BID"][0]).startswith("int("), "kwargs['BID'] shape changed")
@@ -159,6 +177,9 @@ def run(ctx) -> None:
     ctx.rule("R2", "legacy parse_version_info accepts only a full-length match")
     ctx.rule("R3", "every engine predicate classifies every legacy placeholder as legacy and is monotone")
     ctx.rule("R4", "legacy bump: lexid successor always, documented resets, --tag-num refused")
+    ctx.rule("R5", "prerequisite: files rewritten with legacy patterns carry every occurrence (C03/R1-R4, findings about the legacy engine and the shared modules only)")
+    from sa.report import run_prerequisite
+    run_prerequisite(ctx, "C03", ("R1", "R2", "R3", "R4"), "R5", only=lambda key: not key.startswith(("v2rewrite.", "v2version.", "v2patterns.")))
 
     pats_node = prog.const_node("v1patterns", "PART_PATTERNS")
     pats = prog.fold(prog.module("v1patterns"), pats_node)
@@ -203,7 +224,7 @@ def run(ctx) -> None:
     n_scope = 0
     for part in all_parts:
         tmpl = full.get(part, "{" + part + "}")
-        in_scope = part in SCOPE
+        in_scope = part in SCOPE or part not in OUT_OF_SCOPE
         try:
             segs = formats.parse_format(tmpl)
             pieces: T.List[rl.R] = []
